@@ -7,9 +7,12 @@
 package c12vm
 
 import (
+	"encoding/hex"
 	"fmt"
 	"math/rand"
+	"os"
 	"sort"
+	"strconv"
 	"testing"
 
 	"verifharness/internal/vh"
@@ -75,6 +78,9 @@ func (s *session) both(class, src string, script []byte, limit int64, base int64
 	if o.Steps > 3000 && s.r.Intn(3) != 0 {
 		return o
 	}
+	if class == "cov" && s.r.Intn(4) != 0 { // the cover walks are about item accounting: a sample of them suffices for gas
+		return o
+	}
 	var l2 int64
 	switch s.r.Intn(5) {
 	case 0:
@@ -106,6 +112,24 @@ func TestDriver(t *testing.T) {
 	res := vh.NewResult()
 	s := &session{res: res, tr: vh.NewTrace("trace-000.ndjson"), r: vh.Rand(12), agg: map[string]*[8]int{}}
 	bases := []int64{300000, 299999, 123457}
+
+	// replay of one recorded script (tools/vcheck C12 --replay ...)
+	if hx := os.Getenv("VERIF_REPLAY_SCRIPT"); hx != "" {
+		sc, err := hex.DecodeString(hx)
+		if err != nil {
+			t.Fatal(err)
+		}
+		lim, _ := strconv.ParseInt(os.Getenv("VERIF_REPLAY_LIMIT"), 10, 64)
+		base, _ := strconv.ParseInt(os.Getenv("VERIF_REPLAY_BASE"), 10, 64)
+		o := execute(res, s.tr, runSpec{Src: "replay-0", Script: sc, Limit: lim, Base: base})
+		res.Sample(map[string]any{"src": "replay", "steps": o.Steps, "state": o.State, "max_walked": o.MaxWalk})
+		s.tr.Close()
+		res.Inc("trace_files", 1)
+		if err := res.Write(); err != nil {
+			t.Fatal(err)
+		}
+		return
+	}
 
 	// (a) behaviours of the model
 	var bs []behaviour
